@@ -201,3 +201,103 @@ def split_walrus(fn: ast.FunctionDef):
 
 def canonical(fi, index):
     return split_walrus(inline_helpers(fi, index))
+
+
+# ------------------------------------------------------------------------------------------ endless generators fused with their consumer
+def fuse_generators(fn: ast.FunctionDef, module, index):
+    """`it = gen(a, b)` ... `for _, pat in zip(range(N), it): BODY` (or `for pat in islice(it, N)` / `for pat in it`) where `gen`
+    is a generator function of the same module of the shape  PRELUDE; while True: STEP; yield E   becomes
+
+        PRELUDE[params := args]; for _ in range(N): STEP; pat = E; BODY
+
+    i.e. the loop the generator and its consumer execute together, written in one place. Returns a rewritten deep copy of `fn`
+    (unchanged copy when nothing matches). Every statement of the result comes from the analysed tree."""
+    from .index import FunctionInfo
+
+    fn = copy.deepcopy(fn)
+
+    def gen_shape(g: ast.FunctionDef):
+        if not g.body:
+            return None
+        body = [st for st in g.body if not (isinstance(st, ast.Expr) and isinstance(st.value, ast.Constant))]  # docstring
+        if not body or not isinstance(body[-1], ast.While):
+            return None
+        w = body[-1]
+        if not (isinstance(w.test, ast.Constant) and w.test.value is True) or w.orelse or not w.body:
+            return None
+        last = w.body[-1]
+        if not (isinstance(last, ast.Expr) and isinstance(last.value, ast.Yield) and last.value.value is not None):
+            return None
+        inner = [n for st in body[:-1] + w.body[:-1] for n in ast.walk(st)]
+        if any(isinstance(n, (ast.Yield, ast.YieldFrom, ast.Return)) for n in inner) or any(isinstance(n, (ast.Break,)) for st in w.body for n in ast.walk(st)):
+            return None
+        a = g.args
+        if a.vararg or a.kwarg or a.kwonlyargs or a.posonlyargs or a.defaults:
+            return None
+        return body[:-1], w.body[:-1], last.value.value
+
+    def rewrite(stmts):
+        out = list(stmts)
+        for i, st in enumerate(out):
+            if not (isinstance(st, ast.Assign) and len(st.targets) == 1 and isinstance(st.targets[0], ast.Name) and isinstance(st.value, ast.Call) and isinstance(st.value.func, ast.Name)):
+                continue
+            callee = index.resolve_name(module, st.value.func.id)
+            if not (isinstance(callee, FunctionInfo) and callee.cls is None and callee.parent is None):
+                continue
+            shape = gen_shape(callee.node)
+            if shape is None or st.value.keywords or any(isinstance(x, ast.Starred) for x in st.value.args):
+                continue
+            it_name = st.targets[0].id
+            params = [x.arg for x in callee.node.args.args]
+            if len(params) != len(st.value.args):
+                continue
+            # the single consumer: a later `for` statement of the same block
+            for j in range(i + 1, len(out)):
+                f = out[j]
+                uses = [n for n in ast.walk(f) if isinstance(n, ast.Name) and n.id == it_name]
+                if not uses:
+                    continue
+                if not isinstance(f, ast.For) or f.orelse and False:
+                    break
+                itx, count, pat = f.iter, None, f.target
+                if isinstance(itx, ast.Call) and isinstance(itx.func, ast.Name) and itx.func.id == "zip" and len(itx.args) == 2 and isinstance(itx.args[1], ast.Name) and itx.args[1].id == it_name \
+                        and isinstance(itx.args[0], ast.Call) and isinstance(itx.args[0].func, ast.Name) and itx.args[0].func.id == "range" and len(itx.args[0].args) == 1 \
+                        and isinstance(pat, ast.Tuple) and len(pat.elts) == 2:
+                    count, idx_t, pat = itx.args[0].args[0], pat.elts[0], pat.elts[1]
+                elif isinstance(itx, ast.Call) and isinstance(itx.func, ast.Name) and itx.func.id == "islice" and len(itx.args) == 2 and isinstance(itx.args[0], ast.Name) and itx.args[0].id == it_name:
+                    count, idx_t = itx.args[1], ast.Name(id="_", ctx=ast.Store())
+                else:
+                    break
+                if len(uses) != 1 or any(isinstance(n, ast.Name) and n.id == it_name for k in range(j + 1, len(out)) for n in ast.walk(out[k])):
+                    break
+                prelude, step, yielded = (copy.deepcopy(x) for x in shape)
+                binds, ren = [], {}
+                for p_, a_ in zip(params, st.value.args):
+                    if isinstance(a_, ast.Name):
+                        ren[p_] = a_.id
+                    else:
+                        binds.append(ast.Assign(targets=[ast.Name(id=p_, ctx=ast.Store())], value=copy.deepcopy(a_)))
+                rn = _Rename(ren)
+                prelude = [rn.visit(x) for x in prelude]
+                step = [rn.visit(x) for x in step]
+                yielded = rn.visit(yielded)
+                assign = ast.Assign(targets=[copy.deepcopy(pat)], value=yielded)
+                for n in ast.walk(assign.targets[0]):
+                    if isinstance(n, (ast.Name, ast.Tuple, ast.List)):
+                        n.ctx = ast.Store()
+                new_for = ast.For(target=idx_t, iter=ast.Call(func=ast.Name(id="range", ctx=ast.Load()), args=[copy.deepcopy(count)], keywords=[]),
+                                  body=step + [assign] + f.body, orelse=f.orelse)
+                for x in binds + prelude + [new_for]:
+                    ast.copy_location(x, f)
+                out[j:j + 1] = binds + prelude + [new_for]
+                del out[i]
+                return rewrite(out)
+        for st in out:
+            for fld in ("body", "orelse", "finalbody"):
+                sub = getattr(st, fld, None)
+                if isinstance(sub, list) and sub and isinstance(sub[0], ast.stmt):
+                    setattr(st, fld, rewrite(sub))
+        return out
+
+    fn.body = rewrite(fn.body)
+    return ast.fix_missing_locations(fn)
